@@ -45,6 +45,10 @@ type GenginePool struct {
 	max int64
 
 	getEngineLock sync.RWMutex //just one can get this lock
+
+	// guards what requests read of the published state (rbSlice[i].Kc, clear, execModel);
+	// management operations take it only while publishing, requests only while taking their snapshot
+	kcLock sync.RWMutex
 }
 
 type gengineWrapper struct {
@@ -211,6 +215,34 @@ func (gp *GenginePool) putGengineLocked(gw *gengineWrapper) {
 	}()
 }
 
+// publish the rule container to every engine instance; caller holds updateLock
+func (gp *GenginePool) publish(kc *base.KnowledgeContext, clear bool) {
+	gp.kcLock.Lock()
+	for i := 0; i < int(gp.max); i++ {
+		gp.rbSlice[i].Kc = kc
+	}
+	gp.clear = clear
+	gp.kcLock.Unlock()
+}
+
+// the rule builder one request executes with: the instance's data context and the rule
+// container published at this moment, so that an update landing while the request
+// runs cannot change the rules under it
+func (gp *GenginePool) snapshotRuleBuilder(tag int64) *builder.RuleBuilder {
+	gp.kcLock.RLock()
+	rb := gp.rbSlice[tag]
+	snapshot := &builder.RuleBuilder{Kc: rb.Kc, Dc: rb.Dc}
+	gp.kcLock.RUnlock()
+	return snapshot
+}
+
+// whether the rules have been cleared
+func (gp *GenginePool) isCleared() bool {
+	gp.kcLock.RLock()
+	defer gp.kcLock.RUnlock()
+	return gp.clear
+}
+
 //sync method
 //update the all rules in all engine in the pool
 //update success: return nil
@@ -233,11 +265,7 @@ func (gp *GenginePool) UpdatePooledRules(ruleStr string) error {
 	}
 
 	gp.ruleBuilder = rbi
-	for i := 0; i < int(gp.max); i++ {
-		gp.rbSlice[i].Kc = gp.ruleBuilder.Kc
-	}
-
-	gp.clear = false
+	gp.publish(gp.ruleBuilder.Kc, false)
 	return nil
 }
 
@@ -279,6 +307,12 @@ func getKc(ruleString string) (*base.KnowledgeContext, error) {
 }
 
 func updateIncremental(kc *base.KnowledgeContext, rb *builder.RuleBuilder) {
+	//the container in use may be executing right now: never touch it, build a new one
+	newKc := base.NewKnowledgeContext()
+	for ik, iv := range rb.Kc.SortRulesIndexMap {
+		newKc.SortRulesIndexMap[ik] = iv
+	}
+
 	//copy
 	newRuleEntities := make(map[string]*base.RuleEntity, len(rb.Kc.RuleEntities))
 	for mk, mv := range rb.Kc.RuleEntities {
@@ -297,7 +331,7 @@ func updateIncremental(kc *base.KnowledgeContext, rb *builder.RuleBuilder) {
 		if vm, ok := newRuleEntities[k]; ok {
 			//repalce update
 			//search
-			index := rb.Kc.SortRulesIndexMap[v.RuleName]
+			index := newKc.SortRulesIndexMap[v.RuleName]
 			if v.Salience == vm.Salience {
 				//replace
 				newSortRules[index] = v
@@ -319,7 +353,7 @@ func updateIncremental(kc *base.KnowledgeContext, rb *builder.RuleBuilder) {
 				for k, v := range newSortRules {
 					indexMap[v.RuleName] = k
 				}
-				rb.Kc.SortRulesIndexMap = indexMap
+				newKc.SortRulesIndexMap = indexMap
 			}
 
 			newRuleEntities[k] = v
@@ -341,14 +375,15 @@ func updateIncremental(kc *base.KnowledgeContext, rb *builder.RuleBuilder) {
 			for k, v := range newSortRules {
 				indexMap[v.RuleName] = k
 			}
-			rb.Kc.SortRulesIndexMap = indexMap
+			newKc.SortRulesIndexMap = indexMap
 
 			newRuleEntities[k] = v
 		}
 	}
 
-	rb.Kc.RuleEntities = newRuleEntities
-	rb.Kc.SortRules = newSortRules
+	newKc.RuleEntities = newRuleEntities
+	newKc.SortRules = newSortRules
+	rb.Kc = newKc
 }
 
 //sync method
@@ -377,11 +412,7 @@ func (gp *GenginePool) UpdatePooledRulesIncremental(ruleStr string) error {
 	updateIncremental(kci, gp.ruleBuilder)
 
 	//update instance
-	for i := 0; i < int(gp.max); i++ {
-		gp.rbSlice[i].Kc = gp.ruleBuilder.Kc
-	}
-
-	gp.clear = false
+	gp.publish(gp.ruleBuilder.Kc, false)
 	return nil
 }
 
@@ -390,10 +421,8 @@ func (gp *GenginePool) ClearPoolRules() {
 	gp.updateLock.Lock()
 	defer gp.updateLock.Unlock()
 	gp.ruleBuilder = nil
-	gp.clear = true
-	for i := 0; i < int(gp.max); i++ {
-		gp.rbSlice[i].Kc.ClearRules()
-	}
+	//a fresh empty container: the old one may still be executing
+	gp.publish(base.NewKnowledgeContext(), true)
 }
 
 //remove rules
@@ -411,9 +440,7 @@ func (gp *GenginePool) RemoveRules(ruleNames []string) error {
 		return e
 	}
 
-	for _, rb := range gp.rbSlice {
-		_ = rb.RemoveRules(ruleNames)
-	}
+	gp.publish(gp.ruleBuilder.Kc, gp.clear)
 	return nil
 }
 
@@ -449,13 +476,17 @@ func (gp *GenginePool) SetExecModel(execModel int) error {
 	if execModel != SortModel && execModel != ConcurrentModel && execModel != MixModel && execModel != InverseMixModel {
 		return errors.New(fmt.Sprintf("exec model must be SORT_MODEL(1) or CONCOURRENT_MODEL(2) or MIX_MODEL(3) or INVERSE_MIX_MODEL(4), now it is %d", execModel))
 	} else {
+		gp.kcLock.Lock()
 		gp.execModel = execModel
+		gp.kcLock.Unlock()
 	}
 	return nil
 }
 
 //get the execute model the user set
 func (gp *GenginePool) GetExecModel() int {
+	gp.kcLock.RLock()
+	defer gp.kcLock.RUnlock()
 	return gp.execModel
 }
 
@@ -534,7 +565,7 @@ func (gp *GenginePool) prepare(reqName string, req interface{}, respName string,
 		return nil, e
 	}
 
-	gw.rulebuilder = gp.rbSlice[gw.tag]
+	gw.rulebuilder = gp.snapshotRuleBuilder(gw.tag)
 
 	if reqName != "" && req != nil {
 		gw.rulebuilder.Dc.Add(reqName, req)
@@ -553,7 +584,7 @@ func (gp *GenginePool) prepareWithMultiInput(data map[string]interface{}) (*geng
 		return nil, e
 	}
 
-	gw.rulebuilder = gp.rbSlice[gw.tag]
+	gw.rulebuilder = gp.snapshotRuleBuilder(gw.tag)
 
 	for k, v := range data {
 		//user should not inject "" string or nil value
@@ -575,7 +606,7 @@ func (gp *GenginePool) ExecuteRulesWithSpecifiedEM(reqName string, req interface
 
 	returnResultMap := make(map[string]interface{})
 	//rules has bean cleared
-	if gp.clear {
+	if gp.isCleared() {
 		//no data to execute rule
 		return nil, returnResultMap
 	}
@@ -590,26 +621,28 @@ func (gp *GenginePool) ExecuteRulesWithSpecifiedEM(reqName string, req interface
 		gp.putGengineLocked(gw)
 	}()
 
-	if gp.execModel == SortModel { //sort
+	execModel := gp.GetExecModel()
+
+	if execModel == SortModel { //sort
 		// when some rule execute error ,it will continue to execute last
 		e := gw.gengine.Execute(gw.rulebuilder, true)
 		returnResultMap, _ = gw.gengine.GetRulesResultMap()
 		return e, returnResultMap
 	}
 
-	if gp.execModel == ConcurrentModel { //concurrent
+	if execModel == ConcurrentModel { //concurrent
 		e := gw.gengine.ExecuteConcurrent(gw.rulebuilder)
 		returnResultMap, _ = gw.gengine.GetRulesResultMap()
 		return e, returnResultMap
 	}
 
-	if gp.execModel == MixModel { //mix
+	if execModel == MixModel { //mix
 		e := gw.gengine.ExecuteMixModel(gw.rulebuilder)
 		returnResultMap, _ = gw.gengine.GetRulesResultMap()
 		return e, returnResultMap
 	}
 
-	if gp.execModel == InverseMixModel { // inverse mix model
+	if execModel == InverseMixModel { // inverse mix model
 		e := gw.gengine.ExecuteInverseMixModel(gw.rulebuilder)
 		returnResultMap, _ = gw.gengine.GetRulesResultMap()
 		return e, returnResultMap
@@ -628,7 +661,7 @@ func (gp *GenginePool) ExecuteRulesWithMultiInputWithSpecifiedEM(data map[string
 
 	returnResultMap := make(map[string]interface{})
 	//rules has bean cleared
-	if gp.clear {
+	if gp.isCleared() {
 		//no data to execute rule
 		return nil, returnResultMap
 	}
@@ -643,26 +676,28 @@ func (gp *GenginePool) ExecuteRulesWithMultiInputWithSpecifiedEM(data map[string
 		gp.putGengineLocked(gw)
 	}()
 
-	if gp.execModel == SortModel { //sort
+	execModel := gp.GetExecModel()
+
+	if execModel == SortModel { //sort
 		// when some rule execute error ,it will continue to execute last
 		e := gw.gengine.Execute(gw.rulebuilder, true)
 		returnResultMap, _ = gw.gengine.GetRulesResultMap()
 		return e, returnResultMap
 	}
 
-	if gp.execModel == ConcurrentModel { //concurrent
+	if execModel == ConcurrentModel { //concurrent
 		e := gw.gengine.ExecuteConcurrent(gw.rulebuilder)
 		returnResultMap, _ = gw.gengine.GetRulesResultMap()
 		return e, returnResultMap
 	}
 
-	if gp.execModel == MixModel { //mix
+	if execModel == MixModel { //mix
 		e := gw.gengine.ExecuteMixModel(gw.rulebuilder)
 		returnResultMap, _ = gw.gengine.GetRulesResultMap()
 		return e, returnResultMap
 	}
 
-	if gp.execModel == InverseMixModel { // inverse mix model
+	if execModel == InverseMixModel { // inverse mix model
 		e := gw.gengine.ExecuteInverseMixModel(gw.rulebuilder)
 		returnResultMap, _ = gw.gengine.GetRulesResultMap()
 		return e, returnResultMap
@@ -681,7 +716,7 @@ func (gp *GenginePool) ExecuteSelectedWithSpecifiedEM(data map[string]interface{
 
 	returnResultMap := make(map[string]interface{})
 	//rules has bean cleared
-	if gp.clear {
+	if gp.isCleared() {
 		//no data to execute rule
 		return nil, returnResultMap
 	}
@@ -696,25 +731,27 @@ func (gp *GenginePool) ExecuteSelectedWithSpecifiedEM(data map[string]interface{
 		gp.putGengineLocked(gw)
 	}()
 
-	if gp.execModel == SortModel {
+	execModel := gp.GetExecModel()
+
+	if execModel == SortModel {
 		e = gw.gengine.ExecuteSelectedRules(gw.rulebuilder, names)
 		returnResultMap, _ = gw.gengine.GetRulesResultMap()
 		return e, returnResultMap
 	}
 
-	if gp.execModel == ConcurrentModel {
+	if execModel == ConcurrentModel {
 		e = gw.gengine.ExecuteSelectedRulesConcurrent(gw.rulebuilder, names)
 		returnResultMap, _ = gw.gengine.GetRulesResultMap()
 		return e, returnResultMap
 	}
 
-	if gp.execModel == MixModel {
+	if execModel == MixModel {
 		e = gw.gengine.ExecuteSelectedRulesMixModel(gw.rulebuilder, names)
 		returnResultMap, _ = gw.gengine.GetRulesResultMap()
 		return e, returnResultMap
 	}
 
-	if gp.execModel == InverseMixModel {
+	if execModel == InverseMixModel {
 		e = gw.gengine.ExecuteSelectedRulesInverseMixModel(gw.rulebuilder, names)
 		returnResultMap, _ = gw.gengine.GetRulesResultMap()
 		return e, returnResultMap
@@ -727,7 +764,7 @@ func (gp *GenginePool) ExecuteSelectedWithSpecifiedEM(data map[string]interface{
 func (gp *GenginePool) Execute(data map[string]interface{}, b bool) (error, map[string]interface{}) {
 	returnResultMap := make(map[string]interface{})
 	//rules has bean cleared
-	if gp.clear {
+	if gp.isCleared() {
 		//no data to execute rule
 		return nil, returnResultMap
 	}
@@ -752,7 +789,7 @@ func (gp *GenginePool) ExecuteWithStopTagDirect(data map[string]interface{}, b b
 
 	returnResultMap := make(map[string]interface{})
 	//rules has bean cleared
-	if gp.clear {
+	if gp.isCleared() {
 		//no data to execute rule
 		return nil, returnResultMap
 	}
@@ -776,7 +813,7 @@ func (gp *GenginePool) ExecuteWithStopTagDirect(data map[string]interface{}, b b
 func (gp *GenginePool) ExecuteConcurrent(data map[string]interface{}) (error, map[string]interface{}) {
 	returnResultMap := make(map[string]interface{})
 	//rules has bean cleared
-	if gp.clear {
+	if gp.isCleared() {
 		//no data to execute rule
 		return nil, returnResultMap
 	}
@@ -800,7 +837,7 @@ func (gp *GenginePool) ExecuteConcurrent(data map[string]interface{}) (error, ma
 func (gp *GenginePool) ExecuteMixModel(data map[string]interface{}) (error, map[string]interface{}) {
 	returnResultMap := make(map[string]interface{})
 	//rules has bean cleared
-	if gp.clear {
+	if gp.isCleared() {
 		//no data to execute rule
 		return nil, returnResultMap
 	}
@@ -824,7 +861,7 @@ func (gp *GenginePool) ExecuteMixModel(data map[string]interface{}) (error, map[
 func (gp *GenginePool) ExecuteMixModelWithStopTagDirect(data map[string]interface{}, sTag *Stag) (error, map[string]interface{}) {
 	returnResultMap := make(map[string]interface{})
 	//rules has bean cleared
-	if gp.clear {
+	if gp.isCleared() {
 		//no data to execute rule
 		return nil, returnResultMap
 	}
@@ -849,7 +886,7 @@ func (gp *GenginePool) ExecuteMixModelWithStopTagDirect(data map[string]interfac
 func (gp *GenginePool) ExecuteSelectedRules(data map[string]interface{}, names []string) (error, map[string]interface{}) {
 	returnResultMap := make(map[string]interface{})
 	//rules has bean cleared
-	if gp.clear {
+	if gp.isCleared() {
 		//no data to execute rule
 		return nil, returnResultMap
 	}
@@ -873,7 +910,7 @@ func (gp *GenginePool) ExecuteSelectedRules(data map[string]interface{}, names [
 func (gp *GenginePool) ExecuteSelectedRulesWithControl(data map[string]interface{}, b bool, names []string) (error, map[string]interface{}) {
 	returnResultMap := make(map[string]interface{})
 	//rules has bean cleared
-	if gp.clear {
+	if gp.isCleared() {
 		//no data to execute rule
 		return nil, returnResultMap
 	}
@@ -897,7 +934,7 @@ func (gp *GenginePool) ExecuteSelectedRulesWithControl(data map[string]interface
 func (gp *GenginePool) ExecuteSelectedRulesWithControlAsGivenSortedName(data map[string]interface{}, b bool, sortedNames []string) (error, map[string]interface{}) {
 	returnResultMap := make(map[string]interface{})
 	//rules has bean cleared
-	if gp.clear {
+	if gp.isCleared() {
 		//no data to execute rule
 		return nil, returnResultMap
 	}
@@ -921,7 +958,7 @@ func (gp *GenginePool) ExecuteSelectedRulesWithControlAsGivenSortedName(data map
 func (gp *GenginePool) ExecuteSelectedRulesWithControlAndStopTag(data map[string]interface{}, b bool, sTag *Stag, names []string) (error, map[string]interface{}) {
 	returnResultMap := make(map[string]interface{})
 	//rules has bean cleared
-	if gp.clear {
+	if gp.isCleared() {
 		//no data to execute rule
 		return nil, returnResultMap
 	}
@@ -945,7 +982,7 @@ func (gp *GenginePool) ExecuteSelectedRulesWithControlAndStopTag(data map[string
 func (gp *GenginePool) ExecuteSelectedRulesWithControlAndStopTagAsGivenSortedName(data map[string]interface{}, b bool, sTag *Stag, sortedNames []string) (error, map[string]interface{}) {
 	returnResultMap := make(map[string]interface{})
 	//rules has bean cleared
-	if gp.clear {
+	if gp.isCleared() {
 		//no data to execute rule
 		return nil, returnResultMap
 	}
@@ -970,7 +1007,7 @@ func (gp *GenginePool) ExecuteSelectedRulesConcurrent(data map[string]interface{
 
 	returnResultMap := make(map[string]interface{})
 	//rules has bean cleared
-	if gp.clear {
+	if gp.isCleared() {
 		//no data to execute rule
 		return nil, returnResultMap
 	}
@@ -995,7 +1032,7 @@ func (gp *GenginePool) ExecuteSelectedRulesMixModel(data map[string]interface{},
 
 	returnResultMap := make(map[string]interface{})
 	//rules has bean cleared
-	if gp.clear {
+	if gp.isCleared() {
 		//no data to execute rule
 		return nil, returnResultMap
 	}
@@ -1020,7 +1057,7 @@ func (gp *GenginePool) ExecuteSelectedRulesMixModel(data map[string]interface{},
 func (gp *GenginePool) ExecuteInverseMixModel(data map[string]interface{}) (error, map[string]interface{}) {
 	returnResultMap := make(map[string]interface{})
 	//rules has bean cleared
-	if gp.clear {
+	if gp.isCleared() {
 		//no data to execute rule
 		return nil, returnResultMap
 	}
@@ -1046,7 +1083,7 @@ func (gp *GenginePool) ExecuteSelectedRulesInverseMixModel(data map[string]inter
 
 	returnResultMap := make(map[string]interface{})
 	//rules has bean cleared
-	if gp.clear {
+	if gp.isCleared() {
 		//no data to execute rule
 		return nil, returnResultMap
 	}
@@ -1071,7 +1108,7 @@ func (gp *GenginePool) ExecuteNSortMConcurrent(nSort, mConcurrent int, b bool, d
 
 	returnResultMap := make(map[string]interface{})
 	//rules has bean cleared
-	if gp.clear {
+	if gp.isCleared() {
 		//no data to execute rule
 		return nil, returnResultMap
 	}
@@ -1095,7 +1132,7 @@ func (gp *GenginePool) ExecuteNSortMConcurrent(nSort, mConcurrent int, b bool, d
 func (gp *GenginePool) ExecuteNConcurrentMSort(nSort, mConcurrent int, b bool, data map[string]interface{}) (error, map[string]interface{}) {
 	returnResultMap := make(map[string]interface{})
 	//rules has bean cleared
-	if gp.clear {
+	if gp.isCleared() {
 		//no data to execute rule
 		return nil, returnResultMap
 	}
@@ -1119,7 +1156,7 @@ func (gp *GenginePool) ExecuteNConcurrentMSort(nSort, mConcurrent int, b bool, d
 func (gp *GenginePool) ExecuteNConcurrentMConcurrent(nSort, mConcurrent int, b bool, data map[string]interface{}) (error, map[string]interface{}) {
 	returnResultMap := make(map[string]interface{})
 	//rules has bean cleared
-	if gp.clear {
+	if gp.isCleared() {
 		//no data to execute rule
 		return nil, returnResultMap
 	}
@@ -1144,7 +1181,7 @@ func (gp *GenginePool) ExecuteNConcurrentMConcurrent(nSort, mConcurrent int, b b
 func (gp *GenginePool) ExecuteSelectedNSortMConcurrent(nSort, mConcurrent int, b bool, names []string, data map[string]interface{}) (error, map[string]interface{}) {
 	returnResultMap := make(map[string]interface{})
 	//rules has bean cleared
-	if gp.clear {
+	if gp.isCleared() {
 		//no data to execute rule
 		return nil, returnResultMap
 	}
@@ -1169,7 +1206,7 @@ func (gp *GenginePool) ExecuteSelectedNConcurrentMSort(nSort, mConcurrent int, b
 
 	returnResultMap := make(map[string]interface{})
 	//rules has bean cleared
-	if gp.clear {
+	if gp.isCleared() {
 		//no data to execute rule
 		return nil, returnResultMap
 	}
@@ -1194,7 +1231,7 @@ func (gp *GenginePool) ExecuteSelectedNConcurrentMConcurrent(nSort, mConcurrent 
 
 	returnResultMap := make(map[string]interface{})
 	//rules has bean cleared
-	if gp.clear {
+	if gp.isCleared() {
 		//no data to execute rule
 		return nil, returnResultMap
 	}
@@ -1219,7 +1256,7 @@ func (gp *GenginePool) ExecuteDAGModel(dag [][]string, data map[string]interface
 
 	returnResultMap := make(map[string]interface{})
 	//rules has bean cleared
-	if gp.clear {
+	if gp.isCleared() {
 		//no data to execute rule
 		return nil, returnResultMap
 	}
